@@ -131,6 +131,12 @@ var touchTable = map[string]map[string]string{
 
 func r131(c *Ctx, rule string) {
 	c.floor(rule, 18)
+	r131touches(c, rule)
+	r131rest(c, rule)
+}
+
+// r131touches: the frozen table of places where the proxy may alter a request, URL or header.
+func r131touches(c *Ctx, rule string) {
 	ts := c.requestTouches()
 	sort.SliceStable(ts, func(i, j int) bool { return fname(ts[i].fn) < fname(ts[j].fn) })
 	for _, t := range ts {
@@ -147,6 +153,9 @@ func r131(c *Ctx, rule string) {
 			return "a write to a request / URL / header that is not in the frozen table of places where the proxy may alter a message"
 		}())
 	}
+}
+
+func r131rest(c *Ctx, rule string) {
 	// request id / start only when absent
 	for _, name := range []struct{ typ, hdr string }{{"RequestIDMiddleware", "X-Request-ID"}, {"RequestStartMiddleware", "X-Request-Start"}} {
 		fn := c.method(name.typ, "ServeHTTP")
@@ -185,6 +194,32 @@ func r131(c *Ctx, rule string) {
 		}
 	}
 	c.ob(rule, "RequestIDMiddleware/fresh-uuid", gid.Pos(), okU, true, "")
+	// the copy buffers handed to ReverseProxy are distinct objects: the pool's New allocates inside the closure (a buffer
+	// created once outside it would be shared by all concurrent responses of the target, mixing their bytes)
+	nbp := c.fn("NewBufferPool")
+	okPool, nNew := true, 0
+	for _, cl := range nbp.AnonFuncs {
+		for _, ret := range normalReturns(cl) {
+			if len(ret.Results) != 1 {
+				continue
+			}
+			nNew++
+			v := stripConv(ret.Results[0])
+			a, isAlloc := v.(*ssa.Alloc)
+			if !isAlloc || a.Parent() != cl {
+				okPool = false
+				continue
+			}
+			for _, r := range *a.Referrers() {
+				if st, ok := r.(*ssa.Store); ok && st.Addr == ssa.Value(a) {
+					if mk, ok := st.Val.(*ssa.MakeSlice); !ok || mk.Parent() != cl {
+						okPool = false
+					}
+				}
+			}
+		}
+	}
+	c.ob(rule, "BufferPool/New-allocates-a-fresh-buffer", nbp.Pos(), okPool && nNew >= 1, true, "sync.Pool.New must return a buffer allocated by that very call")
 	// response writer wrappers forward WriteHeader / Write unconditionally with the same arguments
 	c.writerForwards(rule, "loggerResponseWriter", true)
 	// targetResponseWriter only embeds (no WriteHeader/Write override)
